@@ -265,7 +265,10 @@ func (p *exeParser) readFragmentDef() (frag *Fragment, err error) {
 		line := p.line
 		col := p.col
 		if token, err = p.readToken(); token != "on" {
-			err = parseError(line, col+len(token)-2, "missing fragment condition")
+			// Where 'on' was expected. (With an 'on' there the arithmetic
+			// used before gave the same column, without one it could go to
+			// zero or below.)
+			err = parseError(line, col, "missing fragment condition")
 		}
 	}
 	if err == nil {
